@@ -59,24 +59,18 @@ Proof.
     rewrite Y1, X1, BP. reflexivity.
 Qed.
 
-(* C01 on runs: every solved row was found balanced by the validator on the reaction it returns,
-   unless post-processing replaced a validated reaction *)
+(* C01 on runs (repaired pipeline): every solved row was found balanced by the comparator on exactly the
+   reaction it returns *)
 Theorem run_solved_validated t tmsg ins rows st :
   run t tmsg ins = Done (rows, st) ->
-  Forall2 (fun s r =>
-    solved r = true ->
-    bal OR (rxn r) = true \/
-    (solved (before_pp OR db ban fuel (fresh 0 s)) = true /\
-     sby (before_pp OR db ban fuel (fresh 0 s)) <> Some M_INPUT /\
-     pp OR (rxn (before_pp OR db ban fuel (fresh 0 s))) <> None)) (admitted ins) rows.
+  Forall2 (fun s r => solved r = true -> bal OR (rxn r) = true) (admitted ins) rows.
 Proof.
   intros H. pose proof (run_rows_are_alone_results OR db ban fuel t tmsg ins rows st H) as A.
   eapply Forall2_impl; [|exact A]. intros s r [r1 [A1 E]] S. cbv beta.
   destruct (alone_fields t tmsg s r1 A1) as [X1 [_ [_ [X4 _]]]].
   destruct (set_rid_fields r1 (rid r)) as [Y1 [_ [_ [Y4 _]]]]. rewrite <- E in *.
   assert (SF : solved (F (fresh 0 s)) = true) by (apply X4; congruence).
-  destruct (solved_rows_validated OR db ban fuel 0 s SF) as [B|R]; [left|right; exact R].
-  rewrite Y1, X1. exact B.
+  rewrite Y1, X1. exact (solved_rows_validated OR db ban fuel 0 s SF).
 Qed.
 
 (* C06: the row a reaction gets is the row it gets alone, whatever else is in the batch *)
